@@ -68,16 +68,18 @@ def mapOpt {α β} (f : α → Option β) : List α → Option (List β)
     | some b, some bs => some (b :: bs)
     | _, _ => none
 
+/-- `out = expr._lower(); if out is None: out = expr` -/
+def outOf (low : T → Option T) (t : T) : T :=
+  match low t with
+  | some o => o
+  | none => t
+
 /-- `lower_once`: lower this node (`_lower() or self`), then every operand of the result.
     `low` is the class-specific `_lower`; `none` = returns None.  `fuel` bounds the recursion depth
     (`none` = exhausted). -/
 def lowerOnce (low : T → Option T) : Nat → T → Option T
   | 0, _ => none
-  | fuel+1, t =>
-    let out := match low t with | some o => o | none => t
-    match mapOpt (lowerOnce low fuel) out.kids with
-    | some ks => some (.node out.cls ks)
-    | none => none
+  | fuel+1, t => (mapOpt (lowerOnce low fuel) (outOf low t).kids).map (T.node (outOf low t).cls)
 
 /-- `lower_completely`: `lower_once` until the name no longer changes; returns the result and the
     number of `lower_once` calls. -/
